@@ -321,12 +321,12 @@ example : ∃ t old cols1 t1, exNewT = .ok t ∧ exOldT = .ok old ∧ t.Inv ∧ 
     (Table.walkCols {} "t" true [] t1.cols).1.filterMap colStmt = [.addCol "z" none, .dropCol "x", .addCol "b" (some "a")] := by
   refine ⟨_, _, _, _, rfl, rfl, ?_, ?_, rfl, rfl, rfl, by decide⟩
   · have h0 := Table.inv_new "t" .add
-    obtain ⟨h1, _⟩ := Table.addColumn_inv _ _ (mkCol "z") true h0 rfl
-    obtain ⟨h2, _⟩ := Table.addColumn_inv _ _ (mkCol "a") true h1 rfl
-    exact (Table.addColumn_inv _ _ (mkCol "b") true h2 rfl).1
+    obtain ⟨h1, _⟩ := Table.addColumn_inv (pg := false) _ _ (mkCol "z") true h0 rfl
+    obtain ⟨h2, _⟩ := Table.addColumn_inv (pg := false) _ _ (mkCol "a") true h1 rfl
+    exact (Table.addColumn_inv (pg := false) _ _ (mkCol "b") true h2 rfl).1
   · have h0 := Table.inv_new "t" .add
-    obtain ⟨h1, _⟩ := Table.addColumn_inv _ _ (mkCol "a") true h0 rfl
-    exact (Table.addColumn_inv _ _ (mkCol "x") true h1 rfl).1
+    obtain ⟨h1, _⟩ := Table.addColumn_inv (pg := false) _ _ (mkCol "a") true h0 rfl
+    exact (Table.addColumn_inv (pg := false) _ _ (mkCol "x") true h1 rfl).1
 
 -- non-vacuity of `printed_columns`: a merged list with a kept, a dropped, an added and a modified column
 def exCols : List Column :=
